@@ -207,25 +207,25 @@ func checkC06(c *km.Ctx) {
 		}
 		for _, gen := range gens {
 			gen := gen
-		km.Instrs(gen, func(in ssa.Instruction) {
-			cl, ok := in.(*ssa.Call)
-			if !ok || cl.Common().IsInvoke() || km.StaticCallee(cl.Common()) != nil {
-				return
-			}
-			_, fld, ok2 := km.FieldPath(cl.Common().Value)
-			if !ok2 || !strings.HasSuffix(fld, "CertificateGenerator") {
-				return
-			}
-			n++
-			roots := map[*ssa.Function]bool{reqH: true}
-			ok1, w1 := s.HoldsOnAllPaths(in, allPrims(s, prCallerID), roots, 4)
-			ok2b, w2 := s.HoldsOnAllPaths(in, allPrims(s, prAccount), roots, 4)
-			found := "dominated by CallerIdentityOK ∧ AccountAllowed"
-			if !ok1 || !ok2b {
-				found = w1 + " " + w2
-			}
-			r.Add("R-C06-1", km.FuncName(gen), "route aws -> params.CertificateGenerator", posOf(c, in), "aws route: certificate generator requires CallerIdentityOK ∧ AccountAllowed", found, ok1 && ok2b)
-		})
+			km.Instrs(gen, func(in ssa.Instruction) {
+				cl, ok := in.(*ssa.Call)
+				if !ok || cl.Common().IsInvoke() || km.StaticCallee(cl.Common()) != nil {
+					return
+				}
+				_, fld, ok2 := km.FieldPath(cl.Common().Value)
+				if !ok2 || !strings.HasSuffix(fld, "CertificateGenerator") {
+					return
+				}
+				n++
+				roots := map[*ssa.Function]bool{reqH: true}
+				ok1, w1 := s.HoldsOnAllPaths(in, allPrims(s, prCallerID), roots, 4)
+				ok2b, w2 := s.HoldsOnAllPaths(in, allPrims(s, prAccount), roots, 4)
+				found := "dominated by CallerIdentityOK ∧ AccountAllowed"
+				if !ok1 || !ok2b {
+					found = w1 + " " + w2
+				}
+				r.Add("R-C06-1", km.FuncName(gen), "route aws -> params.CertificateGenerator", posOf(c, in), "aws route: certificate generator requires CallerIdentityOK ∧ AccountAllowed", found, ok1 && ok2b)
+			})
 		}
 		if n == 0 {
 			r.AnchorLost("R-C06-1", "call of params.CertificateGenerator in aws_identity_cert.(*Issuer).generateRoleCert")
